@@ -108,7 +108,7 @@ pub fn run(reg: &dyn Registry, ctx: &Ctx) -> Outcome {
         let b = match lin::extract_and_bind(*ty, LinOp::Step, ctx, w3, if thorough { 4096 } else { 512 }) {
             Ok(b) => b,
             Err(e) => {
-                ctx.violation(&format!("C07:{}:extract", info.name), &format!("{}: cannot extract the step matrix: {}", info.name, e), json!({"kind":"note"}));
+                ctx.machinery(&format!("{}: cannot extract the step matrix (undecided): {}", info.name, e));
                 continue;
             }
         };
